@@ -283,7 +283,8 @@ func (l *Lexer) readLineComment() string {
 	for l.pos < len(l.input) && l.input[l.pos] != '\n' {
 		l.pos++
 	}
-	return strings.TrimSpace(string(l.input[pos:l.pos]))
+	// (only what the lexer itself skips as white space: a form feed or a no-break space at the end belongs to the comment.)
+	return strings.TrimRight(string(l.input[pos:l.pos]), " \t\r")
 }
 
 func (l *Lexer) endBlockComment(ch byte) bool {
